@@ -21,7 +21,6 @@ func NewReader(r io.Reader, opts ...ReaderOption) *Reader {
 	return s2.NewReader(r, append([]ReaderOption{s2.ReaderAllocBlock(4 << 10)}, opts...)...)
 }
 
-
 var (
 	Encode                  = s2.Encode
 	EncodeBetter            = s2.EncodeBetter
